@@ -531,7 +531,11 @@ func cmdCheck(args []string) int {
 	fs := flag.NewFlagSet("check", flag.ExitOnError)
 	only := fs.String("only", "", "run only this harness function")
 	verbose := fs.Bool("v", false, "verbose")
-	workers := fs.Int("workers", runtime.NumCPU(), "workers")
+	defWorkers := runtime.NumCPU()
+	if v := os.Getenv("VERIF_WORKERS"); v != "" {
+		fmt.Sscan(v, &defWorkers)
+	}
+	workers := fs.Int("workers", defWorkers, "workers")
 	fs.Parse(args)
 	if fs.NArg() < 2 {
 		fmt.Fprintln(os.Stderr, "usage: gosym check [-only F] <id> <quick|thorough>")
